@@ -267,6 +267,7 @@ func c01Cases(c *h.Ctx) error {
 			want := append(desEnc(k.K1, magic), desEnc(k.K2, magic)...)
 			got := lm.LMHash(pw)
 			hx := lm.LMHashToHex(pw)
+			c.Retain("lm.LMHash", got[:], map[string]interface{}{"password_bytes": k.PwRaw})
 			lmH = append(lmH, hcase{pw, hex.EncodeToString(want)})
 			c.Exec(2)
 			smp := map[string]interface{}{"password_bytes": k.PwRaw, "des_keys": h.Hex(k.K1) + " " + h.Hex(k.K2)}
